@@ -504,9 +504,13 @@ where
             }
             Layer::Argmax => {
                 dd.compose::<true, true>(&argmax(dim));
+                // argmax maps to a single component (the index)
+                dim = 1;
             }
             Layer::ClassChar(clazz) => {
                 dd.compose::<true, false>(&class_characterization(dim, *clazz));
+                // the class characterization maps to a single component (the indicator)
+                dim = 1;
             }
         }
         visitor.finish_layer(
